@@ -497,3 +497,75 @@ Definition mom_read (b : list N) : momres :=
       end end end end end end end end end end end end end
     end
   end.
+
+(** ---------- the sky-map reader, up to the pixel values (src/deser/fits/skymap.rs from_fits_skymap_internal) ----------
+    ten mandatory cards (TTYPE1: any string; TFORM1 in D, 1D, E, 1E, 1024E), the keyword loop, PIXTYPE
+    present, depth = MOCORDER or log2 NSIDE (a power of two in 1..2^29), depth <= 29,
+    NAXIS2 x pack = 12 x 4^depth, NAXIS1 >= first column and NAXIS1 - first column <= 65535,
+    ORDERING NESTED or RING; then NAXIS2 rows of NAXIS1 bytes must be readable.  The pixel values (floating
+    point) and what the selection makes of them are outside this model: the verdict is Ok or the error. *)
+Fixpoint log2_pow2 (fuel : nat) (x : N) : option N :=
+  match fuel with
+  | O => None
+  | S f => if x =? 1 then Some 0 else if x mod 2 =? 0 then match log2_pow2 f (x / 2) with Some k => Some (k + 1) | None => None end else None
+  end.
+
+Inductive skyres := SkyOk (depth : N) (is_f64 : bool) (n_pack : N) (nested : bool) | SkyErr (e : ferr).
+
+Definition sky_read (b : list N) : skyres :=
+  match consume_primary b with
+  | Datatypes.inl e => SkyErr e
+  | Datatypes.inr b1 =>
+    match read_block b1 with
+    | None => SkyErr FIo
+    | Some (cs, rest) =>
+      match check_kv (nth 0 cs []) (s2l "XTENSION") (s2l "'BINTABLE'") with Some e => SkyErr e | None =>
+      match check_kv (nth 1 cs []) (s2l "BITPIX  ") (s2l "8") with Some e => SkyErr e | None =>
+      match check_kv (nth 2 cs []) (s2l "NAXIS  ") (s2l "2") with Some e => SkyErr e | None =>
+      match check_kw_uint 64 (nth 3 cs []) (s2l "NAXIS1  ") with Datatypes.inl e => SkyErr e | Datatypes.inr nbytes =>
+      match check_kw_uint 64 (nth 4 cs []) (s2l "NAXIS2 ") with Datatypes.inl e => SkyErr e | Datatypes.inr nrows =>
+      match check_kv (nth 5 cs []) (s2l "PCOUNT  ") (s2l "0") with Some e => SkyErr e | None =>
+      match check_kv (nth 6 cs []) (s2l "GCOUNT  ") (s2l "1") with Some e => SkyErr e | None =>
+      match check_kw_uint 64 (nth 7 cs []) (s2l "TFIELDS ") with Datatypes.inl e => SkyErr e | Datatypes.inr _ =>
+      (* check_keyword_and_get_str_val: keyword, value indicator, quoted string *)
+      match check_kw (nth 8 cs []) (s2l "TTYPE1 ") with Some e => SkyErr e | None =>
+      match check_ind (nth 8 cs []) with Some e => SkyErr e | None =>
+      match str_val (nth 8 cs []) with None => SkyErr FStringValueNotFound | Some _ =>
+      match check_kw (nth 9 cs []) (s2l "TFORM1 ") with Some e => SkyErr e | None =>
+      match check_ind (nth 9 cs []) with Some e => SkyErr e | None =>
+      match str_val (nth 9 cs []) with None => SkyErr FStringValueNotFound | Some tf =>
+      let form := if list_eqb tf (s2l "D") || list_eqb tf (s2l "1D") then Some (true, 1)
+                  else if list_eqb tf (s2l "E") || list_eqb tf (s2l "1E") then Some (false, 1)
+                  else if list_eqb tf (s2l "1024E") then Some (false, 1024) else None in
+      match form with None => SkyErr FUnexpectedValue | Some (is_f64, n_pack) =>
+      match kw_blocks (S (List.length rest)) (skipn 10 cs) rest [] with
+      | Datatypes.inl e => SkyErr e
+      | Datatypes.inr (m, data) =>
+        match kw_get m 11 with None => SkyErr FMissingKeyword | Some _ =>
+        let depth_r : sum ferr N :=
+          match depth_at m 10 with
+          | Some d => Datatypes.inr d
+          | None => match kw_get m 14 with
+                    | Some (KNside ns) => if (0 <? ns) && (ns <=? 2 ^ 29) then
+                                            match log2_pow2 40 ns with Some k => Datatypes.inr k | None => Datatypes.inl FCustom end
+                                          else Datatypes.inl FCustom
+                    | _ => Datatypes.inl FMissingKeyword
+                    end
+          end in
+        match depth_r with Datatypes.inl e => SkyErr e | Datatypes.inr d =>
+        if 29 <? d then SkyErr FUnexpectedDepth
+        else if negb ((nrows * n_pack <? 2 ^ 64) && (nrows * n_pack =? 12 * 4 ^ d)) then SkyErr FCustom
+        else let first := (if is_f64 then 8 else 4) * n_pack in
+             if (nbytes <? first) || (65535 <? nbytes - first) then SkyErr FCustom
+             else match kw_get m 2 with
+                  | None => SkyErr FMissingKeyword
+                  | Some (KEnum o) =>
+                    if (o =? 3) || (o =? 4) then
+                      if N.of_nat (List.length data) <? nrows * nbytes then SkyErr FIo else SkyOk d is_f64 n_pack (o =? 3)
+                    else SkyErr FUnexpectedValue
+                  | Some _ => SkyErr FUnexpectedValue
+                  end
+        end end
+      end end end end end end end end end end end end end end end end
+    end
+  end.
